@@ -8,13 +8,13 @@ MainTransformer -> IntrospectablePass -> GIRWriter) runs on it and the emitted G
 back with ElementTree and compared, fact by fact, with the reference model of the property
 statement (vt/scan/c12_oracle.py).  Families and bounds are in vt/scan/c12_gen.py.
 """
+import hashlib
 import os
 
 from vt.core import Part, pmap, rotate, HarnessBroken
 from vt.scan import fake                           # installs the stub C module
 from vt.scan import run as scanrun
 from vt.scan import c12_gen, c12_oracle
-from vt.scan.c12_gdump import DumpFailure
 
 LEVEL = 'model_checking'
 
@@ -59,7 +59,12 @@ def check_case(scn):
             out['nu'] = len(facts)
             out['outcome'] = ('error', res.error.split(':')[0])
             return out
-        if res.error.startswith('DumpFailure') and out['problems']:
+        if res.error.startswith('DumpFailure'):
+            # the scanner asked the dumper for a function the library does not export (the real
+            # dumper fails: "Failed to find symbol"); if it asked exactly what the headers declare
+            # the scenario generator is wrong
+            if not out['problems']:
+                raise HarnessBroken('scenario lacks a symbol the headers declare: %s' % res.error)
             out['verdict'] = 'bad'
             return out
         out['problems'].append(('pipeline', 'a GIR', res.error))
@@ -97,7 +102,17 @@ def summarize(O):
             v = O[k]
             if v not in (None, False, []):
                 items.append((k, repr(v)))
-    return repr(items)
+    return hashlib.sha1(repr(items).encode()).hexdigest()[:16]
+
+
+EMPTY_DEFAULT_KEY = 'property-default-value:empty-string-dropped'
+
+
+def canonical_probes():
+    lib = c12_gen.Lib(c12_gen.GOBJ)
+    lib.klass('FooObj', 'GObject', class_members=[],
+              props=[dict(name='label', type='gchararray', flags=3, default=['s', ''])])
+    yield EMPTY_DEFAULT_KEY, lib.scn
 
 
 def _family(name):
@@ -128,7 +143,7 @@ def _work(chunk):
                 vkey = '%s:%r:%s' % (fam, p, key)
                 if key.endswith('@default-value') and exp == '' and obs is None:
                     # one finding, not one per scenario: a reported empty-string default is not written
-                    vkey = 'property-default-value:empty-string-dropped'
+                    vkey = EMPTY_DEFAULT_KEY
                 part.violation(vkey,
                                '%s: expected %r, GIR has %r' % (key, exp, obs),
                                {'family': fam, 'params': list(p) if isinstance(p, tuple) else p, 'scenario': scn,
@@ -160,6 +175,14 @@ def run(ctx):
                     'chain_intermediates_max': 4 if tier == 'thorough' else 3,
                     'property_flag_words': '0..255 x {0, 1<<30, 1<<31, 3<<30}',
                     'signal_flag_words': '0..511 x {0, 1<<17}', 'signal_params_max': 3 if tier == 'thorough' else 2})
+    # canonical minimal inputs for findings that many scenarios would otherwise each report under their own key
+    for key, scn in canonical_probes():
+        r = check_case(scn)
+        ctx.add(evaluations=1, states=1, traces_validated_against_impl=1, transitions=r['merged'], facts_must=r['nm'])
+        for k, exp, obs in r['problems']:
+            ctx.violation(key, '%s: expected %r, GIR has %r' % (k, exp, obs),
+                          {'family': 'probe', 'params': key, 'scenario': scn, 'fact': k, 'expected': exp,
+                           'observed': obs})
     # big chunks first so that the pool drains evenly; the seed only rotates dispatch order
     chunks.sort(key=lambda c: -fam_counts[c[0]] // c[3])
     for r in pmap(_work, rotate(chunks, ctx.seed)):
